@@ -493,7 +493,8 @@ def verdicts(repo):
 # which clauses speak for which structural rule (sites inside runner.py)
 RULE_CLAUSES = {
     'R05a': ('outcome', 'error-flavour', 'unknown-error'),
-    'R05b': ('outcome', 'error-flavour', 'no-evaluation-when-unmatched'),
+    'R05b': ('outcome', 'error-flavour', 'no-evaluation-when-unmatched',
+             'unknown-error'),
     'R05d': ('outcome', 'first-layer-wins'),
     'R05e': ('outcome',),
     'R05f': ('outcome', 'order-independent'),
